@@ -99,6 +99,11 @@ def run(tape, ctx: Ctx) -> None:
             server.job_duration = lambda name: durations.get(name, 0.0)
             server.cancel_latency = [0.0, 1.5, 4.0][tape.draw(3, "cancel-latency")]
             ctx.fault_configured("job-slow")
+        outage_len = None
+        if tape.chance(1, 6, "unary-outage?"):
+            outage_len = [0.25, 1.2, 5.0, 40.0][tape.draw(4, "outage-len")]
+            server.outage_until = sim.now + outage_len
+            ctx.fault_configured("unary-outage")
         sim.add_timer_source(server)
         if tape.chance(1, 5, "external-cancel?"):
             # somebody else (another client, an operator) cancels one of the jobs while it runs
@@ -183,7 +188,7 @@ def run(tape, ctx: Ctx) -> None:
                                 fingerprint=_l2_hang_fp(loop, manager, transport))
         elapsed = sim.now - t_start
         _oracle(ctx, server, jobs, failing, outcomes, n_jobs, reps, elapsed, timeout_s, max_retry, cancel_job_k,
-                t_start, loop_busy, fair_since["t"])
+                t_start, loop_busy, fair_since["t"], outage_len)
         ctx.sim_time += 0.0
         ctx.nontrivial = n_jobs >= 2
         if elapsed > 60:
@@ -209,7 +214,7 @@ def _l2_hang_fp(loop, manager, transport) -> str:
 
 
 def _oracle(ctx, server, jobs, failing, outcomes, n_jobs, reps, elapsed, timeout_s, max_retry, cancel_job_k=None,
-            t_start=0.0, loop_busy=None, fair_since=None) -> None:
+            t_start=0.0, loop_busy=None, fair_since=None, outage_len=None) -> None:
     injected_breaks = {id(exc): kind for (_e, exc, kind, _u) in server.breaks}
     injected_unary = {id(e) for e in server.injected_unary}
     nonretry_unary = [e for e in server.injected_unary if getattr(e, "code", 500) not in (500, 503)]
@@ -263,7 +268,19 @@ def _oracle(ctx, server, jobs, failing, outcomes, n_jobs, reps, elapsed, timeout
             polls = [v for v in server.unary_times.values() if v[0] == "get_quantum_job" and v[1] == job_id]
             done_polls = [v for v in polls if v[3] is not None and v[4] == "ok"]
             pending_poll = any(v[3] is None for v in polls)
-            if server.injected_unary and (max_retry <= 10 or waited >= timeout_s):
+            if "Reached max retry attempts" in str(e) and outage_len is not None and not server.injected_unary:
+                # exponential back-off 0.1, 0.2, 0.4, ... is retried while the delay is <= max_retry_delay_seconds:
+                # giving up is only legitimate if the outage outlasted the delays that had to be tried
+                allowed, d = 0.0, 0.1
+                while d <= max_retry:
+                    allowed += d
+                    d *= 2
+                if outage_len < allowed - 0.05:
+                    raise Violation(f"{P}-L2-RETRY-GAVE-UP-EARLY",
+                                    f"{job_id}: 'Reached max retry attempts' after an outage of {outage_len}s although "
+                                    f"max_retry_delay_seconds={max_retry} allows {allowed:.1f}s of back-off")
+                ok, why = True, "retry-exhausted"
+            elif (server.injected_unary or server.outage_failures) and (max_retry <= 10 or waited >= timeout_s):
                 ok, why = True, "timeout"
             elif waited + 1e-6 >= timeout_s:
                 # the polling loop asks once a second until the job is terminal; a caller that times out must
